@@ -310,7 +310,105 @@ def default_dir_scenario():
             out.append(('TestChain (default directory): value differs from the real chain once the chain object is gone', f'helper {got}, real chain {real}'))
     except Exception as e:  # noqa
         out.append(('TestChain (default directory) fails once the chain object is gone', f'{type(e).__name__}: {str(e)[:200]}'))
-    out += several_helpers_scenario() + callable_mock_scenario() + renamed_and_mutable_defaults_scenario() + force_and_homonym_scenario()
+    out += several_helpers_scenario() + callable_mock_scenario() + renamed_and_mutable_defaults_scenario() + force_and_homonym_scenario() + forgotten_mock_homonym_scenario() + shared_base_dir_scenario()
+    return out
+
+
+def shared_base_dir_scenario():
+    """several helpers given the SAME base_dir, with different mock values / parameters: each yields what the real chain yields for its own values"""
+    from taskchain import Parameter, Task
+    from taskchain.utils.testing import TestChain, create_test_task
+
+    class A(Task):
+        def run(self) -> int:
+            return 0
+
+    class D(Task):
+        class Meta:
+            input_tasks = [A]
+            parameters = [Parameter('p', default=0)]
+
+        def run(self, a, p) -> int:
+            return a + p
+
+    out = []
+    base = scratch.fresh('c19s')
+    try:
+        got = []
+        for mocks, params, want in (({A: 1}, {}, 1), ({A: 5}, {}, 5), ({A: 5}, {'p': 100}, 105)):
+            try:
+                got.append((create_test_task(D, input_tasks=mocks, parameters=params, base_dir=Path(base) / 'one').value, TestChain([D], mock_tasks=mocks, parameters=params, base_dir=Path(base) / 'two')['d'].value, want))
+            except Exception as e:  # noqa
+                got.append((f'{type(e).__name__}: {e}', None, want))
+        if any(g[0] != g[2] or g[1] != g[2] for g in got):
+            out.append(('shared-base-dir: a helper returns the result of an earlier helper built on the same base_dir', f'(create_test_task, TestChain, real chain) for a=1; a=5; a=5,p=100: {got}'))
+    finally:
+        scratch.drop(base)
+    return out
+
+
+def forgotten_mock_homonym_scenario():
+    """the task under test names an input BY CLASS (an ungrouped task `stats`); the caller forgets to mock it but mocks a grouped task of the same
+    plain name (`raw:stats`): the missing input is reported at construction - the helper is never built on the other task's value. With an
+    optional input (InputTaskParameter with a default) the helper and the real chain both take the default."""
+    from taskchain import Config, Task
+    from taskchain.parameter import InputTaskParameter
+    from taskchain.utils.testing import TestChain, create_test_task
+
+    class Stats(Task):
+        def run(self) -> int:
+            return 1
+
+    class RawStats(Task):
+        class Meta:
+            name = 'stats'
+            task_group = 'raw'
+
+        def run(self) -> int:
+            return 500
+
+    class Report(Task):
+        class Meta:
+            input_tasks = [RawStats, Stats]
+
+        def run(self) -> int:
+            return self.input_tasks['raw:stats'].value + self.input_tasks[1].value
+
+    class OptReport(Task):
+        class Meta:
+            input_tasks = [RawStats, InputTaskParameter(Stats, default=7)]
+
+        def run(self) -> int:
+            s = self.input_tasks[1]
+            return self.input_tasks['raw:stats'].value + (s.value if isinstance(s, Task) else s)
+
+    out = []
+    for how in ('create_test_task', 'TestChain'):
+        try:
+            if how == 'create_test_task':
+                t = create_test_task(Report, input_tasks={RawStats: 5})
+            else:
+                t = TestChain([Report], mock_tasks={RawStats: 5})['report']
+            v = t.value
+            out.append(('a forgotten mock is not reported when the helper is constructed', f'{how}: Report needs `raw:stats` and (by class) `stats`, only raw:stats is mocked: helper built, value {v!r}'))
+        except Exception:  # noqa
+            pass
+    # the optional variant: real chain without Stats, helper without a mock for it
+    base = scratch.fresh('c19h')
+    try:
+        try:
+            want = Config(Path(base) / 'real', name='r', data={'tasks': [RawStats, OptReport]}).chain()['opt_report'].value
+        except Exception as e:  # noqa
+            want = f'{type(e).__name__}: {e}'
+        try:
+            got = create_test_task(OptReport, input_tasks={RawStats: 500}).value
+        except Exception as e:  # noqa
+            got = f'{type(e).__name__}: {e}'
+        # (whether the default is taken is C08's business; here: the helper does what the real chain does)
+        if (want == 507) != (got == 507) or (isinstance(want, int) and want != got):
+            out.append(('optional input by class absent, a grouped task has its plain name: helper differs from the real chain', f'real chain {want!r}, helper {got!r}'))
+    finally:
+        scratch.drop(base)
     return out
 
 
